@@ -6,7 +6,11 @@
 #endif
 int main(void) {
   IN_ARR(char, b, NB);
+#ifdef QSEL
+  int qsel = QSEL;
+#else
   IN(int, qsel);
+#endif
   char buf[NB + 1];
   for (int i = 0; i < NB; i++) buf[i] = b[i];
   buf[NB] = 0;
